@@ -41,56 +41,100 @@ def _strip_docstrings(stmts):
 
 
 class _Norm(ast.NodeTransformer):
+    """Alpha-renaming of the names a code fragment binds, in the order the bindings are met when the statements are
+    read top to bottom: assignment / with / except targets get a number when first bound; the target of a `for`
+    statement or of a comprehension clause gets a NEW number every time (it is re-bound before every read in its
+    body), so re-using or not re-using a loop variable's name in a later loop does not matter.  Names the fragment
+    does not bind (self, node, module globals) are left alone."""
+
     def __init__(self):
         self.map = {}
+        self.n = 0
 
-    def _bind(self, name):
-        if name not in self.map:
-            self.map[name] = "v%d" % len(self.map)
+    def _fresh(self, name):
+        self.map[name] = "v%d" % self.n
+        self.n += 1
         return self.map[name]
 
-    def collect(self, stmts):
-        # names bound in the fragment: assignment / for / comprehension targets, nested function names and their args
-        for s in stmts:
-            for n in ast.walk(s):
-                if isinstance(n, ast.Name) and isinstance(n.ctx, ast.Store):
-                    self._bind(n.id)
-                elif isinstance(n, ast.FunctionDef):
-                    self._bind(n.name)
-                    for a in n.args.args:
-                        self._bind(a.arg)
-                elif isinstance(n, ast.ExceptHandler) and n.name:
-                    self._bind(n.name)
+    def _bind_target(self, t, fresh):
+        for n in ast.walk(t):
+            if isinstance(n, ast.Name) and isinstance(n.ctx, ast.Store):
+                if fresh or n.id not in self.map:
+                    self._fresh(n.id)
 
     def visit_Name(self, n):
+        if isinstance(n.ctx, ast.Store) and n.id not in self.map:
+            self._fresh(n.id)
         if n.id in self.map:
             return ast.copy_location(ast.Name(id=self.map[n.id], ctx=n.ctx), n)
         return n
 
-    def visit_arg(self, n):
-        if n.arg in self.map:
-            n.arg = self.map[n.arg]
+    def visit_Assign(self, n):
+        n.value = self.visit(n.value)
+        n.targets = [self.visit(t) for t in n.targets]
         return n
 
+    def visit_AugAssign(self, n):
+        n.value = self.visit(n.value)
+        n.target = self.visit(n.target)
+        return n
+
+    def visit_For(self, n):
+        n.iter = self.visit(n.iter)
+        self._bind_target(n.target, fresh=True)
+        n.target = self.visit(n.target)
+        n.body = [self.visit(x) for x in n.body]
+        n.orelse = [self.visit(x) for x in n.orelse]
+        return n
+
+    def _comp(self, n, parts):
+        for c in n.generators:
+            c.iter = self.visit(c.iter)
+            self._bind_target(c.target, fresh=True)
+            c.target = self.visit(c.target)
+            c.ifs = [self.visit(x) for x in c.ifs]
+        for p in parts:
+            setattr(n, p, self.visit(getattr(n, p)))
+        return n
+
+    def visit_GeneratorExp(self, n):
+        return self._comp(n, ["elt"])
+
+    def visit_ListComp(self, n):
+        return self._comp(n, ["elt"])
+
+    def visit_SetComp(self, n):
+        return self._comp(n, ["elt"])
+
+    def visit_DictComp(self, n):
+        return self._comp(n, ["key", "value"])
+
     def visit_ExceptHandler(self, n):
-        self.generic_visit(n)
-        if n.name and n.name in self.map:
-            n.name = self.map[n.name]
+        if n.type is not None:
+            n.type = self.visit(n.type)
+        if n.name:
+            n.name = self._fresh(n.name)
+        n.body = [self.visit(x) for x in n.body]
         return n
 
     def visit_FunctionDef(self, n):
-        n.body = _strip_docstrings(n.body)
-        self.generic_visit(n)
-        if n.name in self.map:
-            n.name = self.map[n.name]
+        n.name = self.map[n.name] if n.name in self.map else self._fresh(n.name)
+        n.args.defaults = [self.visit(x) for x in n.args.defaults]
+        for a in n.args.args:
+            a.arg = self._fresh(a.arg)
+        n.body = [self.visit(x) for x in _strip_docstrings(n.body)]
         return n
 
 
 def normal_form(stmts) -> str:
-    stmts = _strip_docstrings(list(stmts))
+    import copy
+    stmts = _strip_docstrings([copy.deepcopy(x) for x in stmts])
     nz = _Norm()
-    nz.collect(stmts)
-    mod = ast.Module(body=[nz.visit(s) for s in stmts], type_ignores=[])
+    # nested functions may call each other (and themselves) before their `def` is met: bind their names first
+    for st in stmts:
+        if isinstance(st, ast.FunctionDef):
+            nz._fresh(st.name)
+    mod = ast.Module(body=[nz.visit(x) for x in stmts], type_ignores=[])
     return ast.dump(mod, annotate_fields=False, include_attributes=False)
 
 
